@@ -32,6 +32,8 @@ OwnBases == {
         Media(<<"print">>, <<Cm("/*m*/"), Style(<<"a">>, <<D("left", Px("1px"), ""), Cm("/*d*/")>>)>>),
         Page("", <<Cm("/*d*/"), D("left", Px("1px"), "")>>, <<Margin("@top-left", <<D("left", Px("1px"), ""), Cm("/*e*/")>>)>>),
         FontFace(FF \o <<Cm("/*f*/")>>), Cm("/*z*/")>>),
+  Base("comment-joins", <<Style(<<"a /*c*/b", "a/*c*/ b">>, OneDecl), Unknown("@x y /*c*/z;"),
+        Media(<<"print">>, <<Style(<<"a /*c*/b">>, OneDecl), Unknown("@x y /*c*/z;")>>)>>),
   Base("only-comments", <<Style(<<"a">>, <<Cm("/*d*/")>>), Media(<<"print">>, <<Cm("/*m*/")>>),
         Media(<<"tv">>, <<Style(<<"a">>, <<Cm("/*d*/")>>)>>), Style(<<".c">>, OneDecl)>>),
   Base("empty-style-media", <<Style(<<"a">>, <<>>), Style(<<"a", ".c">>, OneDecl), Media(<<"print">>, <<>>),
